@@ -23,7 +23,7 @@ func init() {
 		Explanation: "No map-iteration order and no goroutine scheduling can reach generated output: (map-order) every `range` over a map in the generator packages (api, codegen, codegen/config, codegen/templates, plugin/*, " +
 			"internal/*) is classified — (A) order-insensitive body (only writes to maps/sets, deletes, existence tests, returns of a constant), (B) values appended to slices that are sorted before the function " +
 			"returns them or reads them, or (C) a reviewed table entry keyed by (function, ranged expression) with a reason; a new unclassified site, or a (B) site whose sort disappears, is a violation; " +
-			"(unordered-sources) slices obtained from Template.Templates(), reflect MapKeys or maps.Keys/Values are sorted before use; (accessor-name-agreement) the resolver generator looks up the root accessor of the previous run under a name computed by a helper of the same reviewed class as the one the template uses to emit it (necessary for a second run on an unedited tree to be a no-op); (sequential) the generator packages contain no go statement.",
+			"(unordered-sources) slices obtained from Template.Templates(), reflect MapKeys or maps.Keys/Values are sorted before use; (accessor-name-agreement) the resolver generator looks up the root accessor of the previous run under a name computed by a helper of the same reviewed class as the one the template uses to emit it (necessary for a second run on an unedited tree to be a no-op); (sequential) the generator packages contain no go statement. (sorted-before-read) side condition of the reviewed modelgen entry: the slices filled in map order are not read, and the ModelBuild is not handed on, before each is sorted.",
 		NotDecided:  "idempotence of regeneration on an already generated tree beyond the accessor-name agreement, and independence of the start directory (dynamic; one idempotence defect in the single-file resolver layout is described in DESIGN.md F13 and is not claimed by this check)",
 		Assumptions: []string{"go/packages returns order-normalised results; text/template ranges over maps in key order; gofmt/imports sorting is deterministic"},
 	})
